@@ -196,6 +196,7 @@ func solveAll(e *Exec, res *HarnessResult, prop string, timeoutS int, meta *Harn
 	axioms := e.sideAxioms()
 	// group by (kind,id)
 	type grp struct {
+		noReplay               bool
 		id, kind, site, detail string
 		qs                     []*Term // each: PC ∧ ¬Cond
 		n                      int
@@ -209,7 +210,7 @@ func solveAll(e *Exec, res *HarnessResult, prop string, timeoutS int, meta *Harn
 		}
 		g, ok := groups[key]
 		if !ok {
-			g = &grp{id: o.ID, kind: o.Kind, site: o.Site, detail: o.Detail}
+			g = &grp{id: o.ID, kind: o.Kind, site: o.Site, detail: o.Detail, noReplay: o.NoReplay}
 			groups[key] = g
 			order = append(order, key)
 		}
@@ -386,7 +387,7 @@ func solveAll(e *Exec, res *HarnessResult, prop string, timeoutS int, meta *Harn
 				}
 				or.Replay = dir
 				rep := "skipped"
-				if !meta.Conc && meta.Opts["noreplay"] == "" && os.Getenv("VERIF_NOREPLAY") == "" {
+				if !meta.Conc && !g.noReplay && meta.Opts["noreplay"] == "" && os.Getenv("VERIF_NOREPLAY") == "" {
 					rep = nativeReplay(prop, meta, dir)
 				}
 				or.Replayed = rep
